@@ -38,5 +38,5 @@ cd /verif
 for P in "$@"; do
   VERIF_REPO="$WT" ./check "$P" --tier quick --no-evidence > "$WT/check.out" 2>&1; rc=$?
   echo "CHECK $P: exit $rc"
-  grep "^VIOLATION\|signature\|INFRA" "$WT/check.out" | cut -c1-220 | head -6
+  grep "^INFRA" "$WT/check.out" | cut -c1-300 | head -3; grep "^VIOLATION\|signature" "$WT/check.out" | cut -c1-220 | head -6
 done
